@@ -190,9 +190,13 @@ func (p *Parser) deconstructStruct(rv reflect.Value, numBuffers *int, undo *[]fu
 		fv := rv.Field(i)
 
 		k := fv.Kind()
-		if k == reflect.Interface || k == reflect.Ptr {
+		if k == reflect.Ptr {
 			fv = fv.Elem()
 			//k = fv.Kind()
+		} else if k == reflect.Interface && fv.IsNil() {
+			// Nothing to look into. A non-nil interface is handed over as it is:
+			// if it holds a Binary, the placeholder has to be stored into the interface.
+			continue
 		}
 
 		if !fv.IsValid() || !fv.CanInterface() {
